@@ -517,6 +517,17 @@ impl Searcher {
         self.timer.nodes()
     }
 
+    /// One search at exactly `depth` with the given root window (what negamax does for an inner node):
+    /// the alpha-beta contract can then be observed at the root of any position.
+    pub fn verif_search_window(&mut self, board: &Board, depth: u8, alpha: i32, beta: i32) -> i32 {
+        self.timer.start(None);
+        self.history.age();
+        self.repetition.push(self.zobrist.hash(board));
+        let result = self.negamax(board, depth, 0, alpha, beta, SearchContext::new());
+        self.repetition.pop();
+        result.score
+    }
+
     /// One full-window search at exactly `depth` (no shallower iterations).
     pub fn verif_search_fixed(&mut self, board: &Board, depth: u8) -> (i32, Option<Move>) {
         self.timer.start(None);
